@@ -86,7 +86,7 @@ static inline float vf_bits_float(uint32_t b) { float d; memcpy(&d, &b, 4); retu
  * (sound over-approximation: whatever is proved holds for IEEE division too; used where the
  * proof only needs congruence a == b ==> 1/a == 1/b and SAT cannot decide two 53-bit dividers) */
 #if defined(VF_CBMC) && (defined(VF_UF_FDIV) || defined(VF_UF_FP))
-double __CPROVER_uninterpreted_fdiv(double, double);
+uint64_t __CPROVER_uninterpreted_fdiv(uint64_t, uint64_t);   /* on bit patterns, see VF_UF_FP below */
 /* IEEE division is sign(a) xor sign(b) applied to |a| / |b| (exactly, for every operand pair that
  * does not give NaN); only the quotient of the magnitudes is abstracted */
 static inline double vf_fdiv(double a, double b) {
@@ -103,7 +103,7 @@ static inline double vf_fdiv(double a, double b) {
     else {
         /* finite non-zero magnitudes: the quotient is abstract, but never negative, never NaN, and a
          * numerator >= 1 cannot underflow to zero (1/DBL_MAX is a positive subnormal) */
-        pq.d = __CPROVER_uninterpreted_fdiv(pa.d, pb.d);
+        pq.u = __CPROVER_uninterpreted_fdiv(pa.u, pb.u);
         pq.u &= 0x7FFFFFFFFFFFFFFFUL;
         __CPROVER_assume(pq.u <= INF);
         __CPROVER_assume(!(pa.d >= 1.0) || pq.u != 0);
@@ -120,12 +120,20 @@ static inline double vf_fdiv(double a, double b) {
  * for arbitrary functions holds for the IEEE operations; used where a postcondition is "the same
  * expression of the same inputs" and SAT cannot decide the equivalence of two FP circuits) */
 #if defined(VF_CBMC) && defined(VF_UF_FP)
-double __CPROVER_uninterpreted_fadd(double, double);
-double __CPROVER_uninterpreted_fsub(double, double);
-double __CPROVER_uninterpreted_fmul(double, double);
-#define VF_FADD(a, b) __CPROVER_uninterpreted_fadd((a), (b))
-#define VF_FSUB(a, b) __CPROVER_uninterpreted_fsub((a), (b))
-#define VF_FMUL(a, b) __CPROVER_uninterpreted_fmul((a), (b))
+/* the uninterpreted functions take and return BIT PATTERNS: congruence is then on bit equality
+ * (an uninterpreted function over doubles would be congruent modulo IEEE equality, which conflates
+ * +0 and -0 and never matches NaN -- not an over-approximation of the real operations) */
+uint64_t __CPROVER_uninterpreted_fadd(uint64_t, uint64_t);
+uint64_t __CPROVER_uninterpreted_fsub(uint64_t, uint64_t);
+uint64_t __CPROVER_uninterpreted_fmul(uint64_t, uint64_t);
+static inline uint64_t vf_d2u(double d) { union { double d; uint64_t u; } p; p.d = d; return p.u; }
+static inline double vf_u2d(uint64_t u) { union { double d; uint64_t u; } p; p.u = u; return p.d; }
+static inline double vf_fadd(double a, double b) { return vf_u2d(__CPROVER_uninterpreted_fadd(vf_d2u(a), vf_d2u(b))); }
+static inline double vf_fsub(double a, double b) { return vf_u2d(__CPROVER_uninterpreted_fsub(vf_d2u(a), vf_d2u(b))); }
+static inline double vf_fmul(double a, double b) { return vf_u2d(__CPROVER_uninterpreted_fmul(vf_d2u(a), vf_d2u(b))); }
+#define VF_FADD(a, b) vf_fadd((a), (b))
+#define VF_FSUB(a, b) vf_fsub((a), (b))
+#define VF_FMUL(a, b) vf_fmul((a), (b))
 #else
 #define VF_FADD(a, b) ((a) + (b))
 #define VF_FSUB(a, b) ((a) - (b))
